@@ -1,7 +1,194 @@
 import GluonModel.Sexp
+import GluonModel.StdMap
+import GluonModel.StdList
+import GluonModel.StdString
+import GluonModel.StdDerive
+import GluonModel.StdJson
 open GluonModel
 
-def handle : List Sexp → String
-  | _ => "unimplemented"
+namespace C19Driver
+open StdList (Res)
 
-def main : IO Unit := driverLoop handle
+def ints (xs : List Sexp) : Option (List Int) := xs.mapM Sexp.toInt?
+
+def renderInts (xs : List Int) : String := "(" ++ " ".intercalate (xs.map toString) ++ ")"
+def okInts (xs : List Int) : String := "(ok" ++ String.join (xs.map (fun i => " " ++ toString i)) ++ ")"
+
+/-- must match `gv::quote_bytes` of the Rust side exactly -/
+def quoteBytes (b : List Nat) : String :=
+  let h := "0123456789abcdef".toList
+  let esc (c : Nat) : String :=
+    if c == 34 then "\\\"" else if c == 92 then "\\\\" else if c == 10 then "\\n"
+    else if c == 9 then "\\t" else if c == 13 then "\\r"
+    else if c < 32 || c ≥ 127 then
+      "\\x" ++ String.ofList [h.getD (c / 16) '0', h.getD (c % 16) '0']
+    else String.singleton (Char.ofNat c)
+  "\"" ++ String.join (b.map esc) ++ "\""
+
+def bytesOf (s : String) : List Nat := s.toList.map Char.toNat
+
+def ordInt : Ordering → Int
+  | .lt => -1
+  | .eq => 0
+  | .gt => 1
+def boolInt (b : Bool) : Int := if b then 1 else 0
+
+def foldF (acc x : Int) : Int := Int.tmod (acc * 31 + x) 1000003
+def keyCmp (a b : Int) : Ordering := StdMap.icmp (Int.tdiv a 100) (Int.tdiv b 100)
+
+/-! map: the op interpreter of `map_go` in harness/src/bin/c19/driver.glu -/
+def mapGo : List Int → StdMap.Map Int Int → List Int → StdMap.Map Int Int × List Int
+  | op :: k :: v :: rest, m, acc =>
+    if op == 0 then mapGo rest (StdMap.insert StdMap.icmp k v m) acc
+    else if op == 1 then
+      match StdMap.find StdMap.icmp k m with
+      | some x => mapGo rest m (acc ++ [1, x])
+      | none => mapGo rest m (acc ++ [0])
+    else if op == 2 then
+      let l := StdMap.toList m
+      mapGo rest m (acc ++ [(l.length : Int)] ++ l.flatMap (fun kv => [kv.1, kv.2]))
+    else if op == 3 then
+      let ks := StdMap.keys m
+      mapGo rest m (acc ++ [(ks.length : Int)] ++ ks ++ StdMap.values m)
+    else if op == 4 then mapGo rest (StdMap.append StdMap.icmp m (StdMap.singleton k v)) acc
+    else mapGo rest (StdMap.append StdMap.icmp (StdMap.singleton k v) m) acc
+  | _, m, acc => (m, acc)
+
+def handleMap (ops : List Int) : String :=
+  let (m, acc) := mapGo ops StdMap.empty []
+  let sh := StdMap.showMap (fun (i : Int) => toString i) (fun (i : Int) => toString i) m
+  let m2 := StdMap.map (fun x => x * 2 + 1) m
+  let folds : List Int := [
+    StdMap.foldl foldF 7 m,
+    StdMap.foldr (fun x acc => foldF acc x) 7 m,
+    StdMap.foldl foldF 7 m2,
+    boolInt (StdMap.eqMap (· == ·) (· == ·) m m)]
+  "(" ++ renderInts acc ++ " " ++ Sexp.quote sh ++ " " ++ renderInts folds ++ ")"
+
+def handleList (op : Int) (xs ys : List Int) (p q : Int) : String :=
+  let l := StdList.ofArray xs
+  let r := StdList.ofArray ys
+  if op == 0 then okInts (StdList.sort StdMap.icmp l)
+  else if op == 1 then okInts (StdList.sort keyCmp l)
+  else if op == 2 then okInts (StdList.filter (fun x => x < p) l)
+  else if op == 3 then okInts (StdList.filter (fun x => Int.tmod x p == q) l)
+  else if op == 4 then okInts [StdList.foldl foldF p l]
+  else if op == 5 then okInts [StdList.foldr (fun x acc => foldF acc x) p l]
+  else if op == 6 then okInts (StdList.foldl (fun acc x => x :: acc) [] l)
+  else if op == 7 then okInts (StdList.append l r)
+  else if op == 8 then okInts (StdList.map (fun x => x * 2 + 1) l)
+  else if op == 9 then okInts (StdList.flatMap (fun x => [x, x + p]) l)
+  else if op == 10 then
+    okInts [ordInt (StdList.listCmp StdMap.icmp l r), boolInt (StdList.listEq (· == ·) l r)]
+  else okInts (StdList.foldr (fun x acc => x :: acc) [] l)
+
+def handleArr (op : Int) (xs ys : List Int) (p q : Int) : String :=
+  if op == 0 then
+    match StdList.arrIndex xs p with
+    | .ok x => okInts [x]
+    | .err => "err"
+  else if op == 1 then
+    match StdList.arrSlice xs p q with
+    | .ok r => okInts r
+    | .err => "err"
+  else if op == 2 then okInts (StdList.arrAppend xs ys)
+  else if op == 3 then okInts [(xs.length : Int), boolInt (xs.length == 0)]
+  else if op == 4 then okInts [StdList.arrFoldl foldF p xs]
+  else if op == 5 then okInts [StdList.arrFoldr (fun x acc => foldF acc x) p xs]
+  else if op == 6 then
+    okInts [ordInt (StdList.arrCmp StdMap.icmp xs ys), boolInt (StdList.arrEq (· == ·) xs ys)]
+  else if op == 7 then okInts (StdList.arrMap (fun x => x * 2 + 1) xs)
+  else okInts (StdList.arrAppend xs ys)
+
+def optInt : Option Nat → Int
+  | some i => i
+  | none => -1
+
+def handleSInt (op : Int) (s t : List Nat) (i : Int) : String :=
+  let ok (n : Int) := "(ok " ++ toString n ++ ")"
+  if op == 0 then ok (StdString.len s)
+  else if op == 1 then
+    match StdString.charAt s i with
+    | .ok c => ok c
+    | .err => "err"
+    | .abort => "abort"
+  else if op == 2 then ok (optInt (StdString.find s t))
+  else if op == 3 then ok (optInt (StdString.rfind s t))
+  else if op == 4 then ok (ordInt (StdString.cmp s t))
+  else if op == 5 then ok (boolInt (StdString.isCharBoundary s i))
+  else if op == 6 then ok (boolInt (StdString.startsWith s t))
+  else if op == 7 then ok (boolInt (StdString.endsWith s t))
+  else if op == 8 then ok (boolInt (StdString.contains s t))
+  else if op == 9 then ok (boolInt (s == t))
+  else ok (boolInt (StdString.isEmpty s))
+
+def handleSStr (op : Int) (s t : List Nat) (i j : Int) : String :=
+  let ok (b : List Nat) := "(ok " ++ quoteBytes b ++ ")"
+  if op == 0 then
+    match StdString.slice s i j with
+    | .ok r => ok r
+    | .err => "err"
+    | .abort => "abort"
+  else if op == 2 || op == 3 then
+    match StdString.splitAt s i with
+    | .ok (l, r) => ok (if op == 2 then l else r)
+    | .err => "err"
+    | .abort => "abort"
+  else if op == 4 then ok (StdString.showStr s)
+  else ok (StdString.append s t)
+
+open StdDerive in
+partial def parseVal : Sexp → Option Val
+  | .list [.atom "i", n] => n.toInt?.map Val.int
+  | .list [.atom "s", .str s] => some (.str s)
+  | .list [.atom "b", .atom "T"] => some (.bool true)
+  | .list [.atom "b", .atom "F"] => some (.bool false)
+  | .list (.atom "c" :: .str n :: args) => (args.mapM parseVal).map (Val.ctor n)
+  | .list (.atom "a" :: xs) => (xs.mapM parseVal).map Val.arr
+  | .list (.atom "r" :: fs) =>
+    (fs.mapM (fun (f : Sexp) => match f with
+      | Sexp.list [Sexp.str n, v] => (parseVal v).map (fun v => (n, v))
+      | _ => none)).map Val.record
+  | _ => none
+
+def handle : List Sexp → String
+  | .atom "map" :: ops =>
+    match ints ops with
+    | some ops => handleMap ops
+    | none => "bad-request"
+  | [.atom "list", op, .list xs, .list ys, p, q] =>
+    match op.toInt?, ints xs, ints ys, p.toInt?, q.toInt? with
+    | some op, some xs, some ys, some p, some q => handleList op xs ys p q
+    | _, _, _, _, _ => "bad-request"
+  | .atom "lshow" :: xs =>
+    match ints xs with
+    | some xs => Sexp.quote (StdList.showList (fun (i : Int) => toString i) (StdList.ofArray xs))
+    | none => "bad-request"
+  | [.atom "arr", op, .list xs, .list ys, p, q] =>
+    match op.toInt?, ints xs, ints ys, p.toInt?, q.toInt? with
+    | some op, some xs, some ys, some p, some q => handleArr op xs ys p q
+    | _, _, _, _, _ => "bad-request"
+  | .atom "ashow" :: xs =>
+    match ints xs with
+    | some xs => Sexp.quote (StdList.arrShow (fun (i : Int) => toString i) xs)
+    | none => "bad-request"
+  | [.atom "sint", op, .str s, .str t, i] =>
+    match op.toInt?, i.toInt? with
+    | some op, some i => handleSInt op (bytesOf s) (bytesOf t) i
+    | _, _ => "bad-request"
+  | [.atom "sstr", op, .str s, .str t, i, j] =>
+    match op.toInt?, i.toInt?, j.toInt? with
+    | some op, some i, some j => handleSStr op (bytesOf s) (bytesOf t) i j
+    | _, _, _ => "bad-request"
+  | [.atom "derive", x, y] =>
+    match parseVal x, parseVal y with
+    | some x, some y =>
+      "(" ++ Sexp.quote (StdDerive.showVal x) ++ " " ++ Sexp.quote (StdDerive.showVal y) ++ " "
+        ++ (if StdDerive.eqVal x y then "T" else "F") ++ ")"
+    | _, _ => "bad-request"
+  | .atom "json" :: rest => StdJson.handleJson rest
+  | _ => "bad-request"
+
+end C19Driver
+
+def main : IO Unit := driverLoop C19Driver.handle
